@@ -25,6 +25,7 @@ type Scenario struct {
 	MaxExecs    int // cap on executions (0 = default)
 	MaxSteps    int
 	Once        bool // pure enumeration inside the body: execute exactly once, no schedule search
+	RawRun      func() (viol []vsched.Violation, obs []string, inputs int64) // runs outside the scheduler (real sockets): input enumeration only
 	Horizon     time.Duration
 	Run         func()
 }
@@ -102,6 +103,22 @@ func Explore(t *testing.T, sc *Scenario, opt Options) *Report {
 	}
 	if opt.MaxFound == 0 {
 		x.opt.MaxFound = 3
+	}
+	if sc.RawRun != nil {
+		viol, obs, inputs := sc.RawRun()
+		rep.Executions, rep.Steps, rep.Nodes, rep.BoundDone = 1, 1, 1, 0
+		rep.SampleObs = obs
+		rep.Outcomes = 1
+		rep.Extra = map[string]int64{"inputs": inputs}
+		for _, v := range viol {
+			if !x.keys[v.Key] {
+				x.keys[v.Key] = true
+				rep.Found = append(rep.Found, Found{Scenario: sc.Name, Family: sc.Family, Key: v.Key, Msg: v.Msg, End: "raw", Obs: obs})
+			}
+		}
+		rep.Exhaustive = true
+		rep.WallS = time.Since(start).Seconds()
+		return rep
 	}
 	if sc.Once {
 		res := vsched.Run(t, cfgOf(sc, nil, false), sc.Run)
